@@ -14,16 +14,14 @@ FAMILY_KEY = {
     "cr-window:seek": 'cr-window seek docsize=100 ndocs=200 term=CR err={"b": tru }',
     "cr-window:pipe": 'cr-window pipe docsize=100 ndocs=200 term=CR err={"b": tru } reads=full',
     "stream-offset": 'stream-offset seek input={"b": tru }',
-    "yaml-char-index": 'yaml-char-index seek input="\\u4e16\\u754c: 1\\n  x: 2\\n"',
 }
 WHAT = {
     "pipe-reset": "non-seekable input: the window trimming dropped read-ahead that contains the offending byte "
                   "(wrong line and/or empty excerpt) — D7, repaired by e216f69, reintroduced?",
     "cr-window": "input longer than the window with lone-CR line terminators: the bytes before the window are counted "
                  "with '\\n' only, getLineByOffset counts CR too (line number too small)",
-    "yaml-char-index": "--yaml-input: go-yaml's ParserError/UnmarshalError.Index counts characters, cli/error.go uses "
-                       "Index+1 as a byte offset: with multi-byte text before the error the caret (and possibly the line) "
-                       "is too early",
+    "yaml-char-index": "--yaml-input: go-yaml's ParserError/UnmarshalError.Index counts characters; the report is right for BYTE "
+                       "number Index but not for the character (repaired by 652e0ad, reintroduced?)",
     "stream-offset": "--stream: the offset of a SyntaxError returned through dec.Token() is not the absolute 1-based "
                      "offset of the offending byte, cli/inputs.go uses it as such (wrong caret, often wrong line)",
 }
@@ -94,7 +92,7 @@ def run(tier, seed):
             name = byline.get(line, short(line))
             canon_failing.add(name)
             fam = ("cr-window" if name.startswith("cr-window") else "stream-offset" if name.startswith("stream-offset")
-                   else "yaml-char-index" if name.startswith("yaml-char-index")
+                   else "yaml-char-index" if "yaml-char-index" in name
                    else "pipe-reset" if "pipe-reset" in name else None)
             c.failing_input(WHAT.get(fam, "reported position violates the property on a canonical case"), name,
                             "spec verdict %s on the canonical input; stderr is in the case line: %s" % (verdict, short(line, 1200)))
@@ -116,7 +114,7 @@ def run(tier, seed):
             if m and m.group(1) in ("stream-offset", "cr-window", "yaml-char-index"):
                 fam = m.group(1)
             key = None
-            if fam in ("stream-offset", "yaml-char-index"):
+            if fam == "stream-offset":
                 key = FAMILY_KEY[fam]
             elif fam == "cr-window":
                 key = FAMILY_KEY.get("cr-window:" + ("pipe" if transport_of(line) == "pipe" else "seek"))
